@@ -112,9 +112,10 @@ fn run_pairs<T: Sc>(ctx: &Ctx, total: &mut Collector) {
                     "unordered_pairs_by_hue_case": cases,
                     "pairs_excluded_because_|Δh'|_within_threshold_of_180°": l.excluded, "threshold_deg": tols::<T>().thr180,
                     "pairs_within_1e-3°_of_180°": l.excluded_1e3,
+                    "pairs_with_|Δh'|>180_within_threshold_of_h1'+h2'=360° (the formula's own 5e-6·ΔE jump is added to tol)": l.near_sum360,
                     "pairs_that_needed_the_±4ulp_envelope": l.needed_envelope,
                     "pair_measure_evaluations_not_bit_symmetric": l.asym_bits,
-                    "max_err_over_tol_in_the_sum>=360_branches (not part of the sub-check's max_err_over_tol)": l.best_ge360,
+                    "max_err_over_tol_in_the_sum>=360_branches_and_next_to_Σ=360° (not rounding; not part of the sub-check's max_err_over_tol)": l.best_ge360,
                     "mean_hue_variant_(sum+360)/2_when_sum>=360: max |ΔE_variant − ΔE_Sharma| (reference arithmetic, f64)": l.variant_dev,
                     "mean_hue_variant_worst_pair": l.variant_case,
                 }));
@@ -170,7 +171,7 @@ fn run_polar_rect<T: Sc>(ctx: &Ctx, total: &mut Collector) {
             total.merge(c);
             bound.push(format!("{} {}: {} colours → {} unordered pairs × {} measures", space.name(), dir, n, (n as u64) * (n as u64 + 1) / 2, polar_measures(space).len()));
             if space == Space::Lch {
-                total.note(&format!("polar-vs-rect/Lch<{}>/{}", T::NAME, dir), json!({"ciede2000_evaluations_excluded_near_180°": l.excluded}));
+                total.note(&format!("polar-vs-rect/Lch<{}>/{}", T::NAME, dir), json!({"ciede2000_evaluations_excluded_near_180°": l.excluded, "max_err_over_tol_next_to_Σ=360° (the formula's own jump; not part of max_err_over_tol)": l.best_ge360}));
             }
             agg.merge(&l);
         }
@@ -392,18 +393,20 @@ fn scan_literals(c: &mut Collector) {
         };
         for line in txt.lines() {
             let code = line.split("//").next().unwrap_or("");
-            if ![".lt(", ".lt_eq(", ".gt(", ".gt_eq(", ".eq("].iter().any(|p| code.contains(p)) {
-                continue;
-            }
-            let mut rest = code;
-            while let Some(p) = rest.find("from_f64(") {
-                let tail = &rest[p + 9..];
-                let lit: String = tail.chars().take_while(|ch| *ch != ')').collect();
-                if !known.contains(&lit.trim()) {
-                    c.warn(format!("{f}: literal {lit} in a comparison is not in C09's threshold list {known:?}"));
+            // literals that are the argument of a comparison: `.lt_eq(&T::from_f64(180.0))`
+            for op in [".lt(&", ".lt_eq(&", ".gt(&", ".gt_eq(&", ".eq(&"] {
+                let mut rest = code;
+                while let Some(p) = rest.find(op) {
+                    let tail = &rest[p + op.len()..];
+                    rest = tail;
+                    let arg: String = tail.chars().take_while(|ch| *ch != ')').collect();
+                    let Some(q) = arg.find("from_f64(") else { continue };
+                    let lit = arg[q + 9..].trim().to_string();
+                    if !known.contains(&lit.as_str()) {
+                        c.warn(format!("{f}: literal {lit} in a comparison is not in C09's threshold list {known:?}"));
+                    }
+                    found.push(format!("{f}:{lit}"));
                 }
-                found.push(format!("{f}:{}", lit.trim()));
-                rest = &tail[lit.len()..];
             }
         }
     }
